@@ -3,6 +3,8 @@ package main
 import (
 	"fmt"
 	"sync"
+	"sync/atomic"
+	"time"
 
 	"github.com/yaricom/goNEAT/v4/neat/genetics"
 )
@@ -164,6 +166,17 @@ func (m *innovMonitor) Constructed(c *Ctx, sc *EvoScenario, pop *genetics.Popula
 		m.mu.Lock()
 		m.events = append(m.events, inn)
 		m.mu.Unlock()
+	}
+	if sc.Parallel {
+		// widen the windows between a species' scan of the record, its draws from the two counters and its store
+		var n uint64
+		seed := uint64(c.G.Int63())
+		genetics.VerifHooks.Yield = func(site string) {
+			k := atomic.AddUint64(&n, 1)
+			if d := splitmix(seed+k) % 64; d < 24 {
+				time.Sleep(time.Duration(d) * 5 * time.Microsecond)
+			}
+		}
 	}
 }
 
